@@ -67,6 +67,9 @@ package commonmark
 //@ func (*InlineParser).processEmphasis
 //@   requires[state] !isnil(state) && 0 <= stackBottom && stackBottom <= len(state.stack)
 //@   modifies everything
+//@   -- the delimiters above stack_bottom are consumed, the ones below are left exactly as they were
+//@   ensures[bottom] !isnil(state) && len(state.stack) == stackBottom
+//@   ensures[below] forall k in [0, stackBottom): state.stack[k].typ == old(state.stack[k].typ) && state.stack[k].flags == old(state.stack[k].flags) && state.stack[k].n == old(state.stack[k].n) && state.stack[k].node == old(state.stack[k].node)
 //@   havoccall (*inlineState).wrap, (*inlineState).remove keeps inlineState.stack, elems:delimiterStackElement, elems:int
 //@   -- the opener wrapped with a closer is the nearest element below it that matches it (rules 9 and 10 included)
 //@   callsite (*inlineState).wrap: requires[nearest] 0 <= openerIndex && openerIndex < currentPosition && currentPosition < len(state.stack)
@@ -80,9 +83,11 @@ package commonmark
 //@       || ($1 == EmphasisKind && (!($2.span.End + 1 - $2.span.Start >= 2 && $3.span.End - ($3.span.Start - 1) >= 2)
 //@             || !(0 <= $2.span.Start && $2.span.Start <= $2.span.End + 1 && 0 <= $3.span.Start - 1 && $3.span.Start - 1 <= $3.span.End)))
 //@   loop 0: invariant[init] forall k in [0, _i): openersBottom[k] == stackBottom
+//@   loop 1: invariant[below] forall k in [0, stackBottom): state.stack[k].typ == old(state.stack[k].typ) && state.stack[k].flags == old(state.stack[k].flags) && state.stack[k].n == old(state.stack[k].n) && state.stack[k].node == old(state.stack[k].node)
 //@   loop 1: invariant[pos] !isnil(state) && 0 <= stackBottom && stackBottom <= currentPosition && currentPosition <= len(state.stack)
 //@   loop 1: invariant[bounds] forall k in [0, 14): stackBottom <= openersBottom[k] && openersBottom[k] <= currentPosition
 //@   loop 1: invariant[sound] forall k in [0, 14): forall j in [stackBottom, openersBottom[k]): !MatchB(state.stack[j].typ, state.stack[j].flags, state.stack[j].n, k)
+//@   loop 2: invariant[below] forall k in [0, stackBottom): state.stack[k].typ == old(state.stack[k].typ) && state.stack[k].flags == old(state.stack[k].flags) && state.stack[k].n == old(state.stack[k].n) && state.stack[k].node == old(state.stack[k].node)
 //@   loop 2: invariant[pos] !isnil(state) && 0 <= stackBottom && stackBottom <= currentPosition && currentPosition < len(state.stack) && openersBottomIndex == Bucket(state.stack[currentPosition].typ, state.stack[currentPosition].flags, state.stack[currentPosition].n)
 //@       && 0 <= openersBottomIndex && openersBottomIndex < 14 && IsCloserEl(state.stack[currentPosition].typ, state.stack[currentPosition].flags)
 //@   loop 2: invariant[idx] openersBottom[openersBottomIndex] - 1 <= openerIndex && openerIndex < currentPosition
@@ -91,6 +96,7 @@ package commonmark
 //@   loop 2: invariant[none] forall j in [openerIndex + 1, currentPosition): !MatchB(state.stack[j].typ, state.stack[j].flags, state.stack[j].n, openersBottomIndex)
 //@   loop 2: use BucketMatch(state.stack[openerIndex].typ, state.stack[openerIndex].flags, state.stack[openerIndex].n, state.stack[currentPosition].typ, state.stack[currentPosition].flags, state.stack[currentPosition].n)
 //@   loop 2: decreases openerIndex + 1
+//@   loop 3: invariant[below] forall k in [0, stackBottom): state.stack[k].typ == old(state.stack[k].typ) && state.stack[k].flags == old(state.stack[k].flags) && state.stack[k].n == old(state.stack[k].n) && state.stack[k].node == old(state.stack[k].node)
 //@   loop 3: invariant[pos] !isnil(state) && 0 <= stackBottom && stackBottom <= currentPosition && currentPosition <= len(state.stack) && 0 <= openerIndex && openerIndex + 1 == currentPosition && stackBottom <= openerIndex
 //@   loop 3: invariant[clamped] forall k in [0, _i): stackBottom <= openersBottom[k] && openersBottom[k] <= openerIndex
 //@   loop 3: invariant[rest] forall k in [_i, 14): stackBottom <= openersBottom[k] && openersBottom[k] <= len(state.stack) + 1152921504606846976
@@ -101,3 +107,27 @@ package commonmark
 //@   nosafety range the spans of delimiter nodes are positions in Source (assumption A-C02-1)
 //@   nosafety nil the nodes of delimiter-stack elements are never nil (assumption A-NODEINV)
 //@   serves C11, C13, C04
+
+// ---------------------------------------------------------------------------
+// finishLink (C05, "no link contains a link"): once a link has been formed,
+// every '[' opener that is still on the stack below it is deactivated, so that
+// no enclosing brackets can turn into a link around it (an image opener stays
+// active: an image description may contain links).  The delimiters from the
+// opener upwards are consumed; the others keep their identity.
+// ---------------------------------------------------------------------------
+
+//@ func (*InlineParser).finishLink
+//@   requires[args] !isnil(state) && 0 <= openDelimIndex && openDelimIndex < len(state.stack)
+//@   modifies everything
+//@   havoccall (*inlineState).remove keeps inlineState.stack, elems:delimiterStackElement
+//@   ensures[len] !isnil(state) && len(state.stack) == openDelimIndex
+//@   ensures[deactivated] kind == LinkKind ==> (forall i in [0, openDelimIndex): state.stack[i].typ == 3 ==> state.stack[i].flags % 2 == 0)
+//@   ensures[same] forall i in [0, openDelimIndex): state.stack[i].typ == old(state.stack[i].typ) && state.stack[i].n == old(state.stack[i].n) && state.stack[i].node == old(state.stack[i].node)
+//@       && ((kind != LinkKind || state.stack[i].typ != 3) ==> state.stack[i].flags == old(state.stack[i].flags))
+//@   loop 0: invariant[len] !isnil(state) && len(state.stack) == openDelimIndex && kind == LinkKind && 0 <= openDelimIndex
+//@   loop 0: invariant[done] 0 <= i && i <= openDelimIndex && (forall k in [0, i): state.stack[k].typ == 3 ==> state.stack[k].flags % 2 == 0)
+//@   loop 0: invariant[same] forall k in [0, openDelimIndex): state.stack[k].typ == old(state.stack[k].typ) && state.stack[k].n == old(state.stack[k].n) && state.stack[k].node == old(state.stack[k].node)
+//@       && ((state.stack[k].typ != 3 || k >= i) ==> state.stack[k].flags == old(state.stack[k].flags))
+//@   loop 0: decreases openDelimIndex - i
+//@   nosafety nil the nodes of delimiter-stack elements are never nil (assumption A-NODEINV)
+//@   serves C05, C04
